@@ -16,6 +16,8 @@ import ast
 import os
 import sys
 
+sys.path.insert(0, os.path.dirname(os.path.abspath(__file__)))
+
 # (file, class, function) -> (decorators, argument names, statements), as ast.unparse prints them
 EXPECT = {('prior.py', 'JokerPrior', '__init__'): ([],
                                           ['self', 'pars', 'poly_trend', 'v0_offsets', 'model'],
@@ -152,6 +154,17 @@ Definition validate_prior_gen (decls : list decl) (poly noff : nat) : vres :=
 """
 
 
+# argument defaults of the pinned functions (tools/pin_defaults.py)
+PIN_DEFAULTS = {('prior.py', 'JokerPrior', '__init__'): ['None', '1', 'None', 'None'],
+ ('prior.py', 'JokerPrior', 'par_names'): [],
+ ('prior.py', 'JokerPrior', 'n_offsets'): [],
+ ('prior_helpers.py', None, 'get_nonlinear_equiv_units'): [],
+ ('prior_helpers.py', None, 'validate_poly_trend'): [],
+ ('prior_helpers.py', None, 'get_linear_equiv_units'): [],
+ ('prior_helpers.py', None, 'validate_n_offsets'): [],
+ ('prior_helpers.py', None, 'get_v0_offsets_equiv_units'): []}
+
+
 class Untranslatable(Exception):
     pass
 
@@ -166,6 +179,11 @@ def body_src(fdef):
 def main():
     repo, out = sys.argv[1], sys.argv[2]
     try:
+        import pin_defaults
+
+        bad = pin_defaults.mismatch(repo, PIN_DEFAULTS)
+        if bad:
+            raise Untranslatable(bad)
         trees = {}
         for (rel, cls, fname), (decos, args, want) in EXPECT.items():
             if rel not in trees:
